@@ -493,6 +493,16 @@ func (s *InMemoryStore) DeleteTopic(ctx context.Context, name string) error {
 			delete(s.offsets, key)
 		}
 	}
+	// "removes a topic and associated offsets": the committed consumer offsets
+	// and the topic's configuration go too, as in the etcd-backed store, so a
+	// topic re-created under the same name does not inherit them.
+	for key := range s.consumerOffsets {
+		if key.topic == name {
+			delete(s.consumerOffsets, key)
+			delete(s.consumerMeta, key)
+		}
+	}
+	delete(s.topicConfigs, name)
 	return nil
 }
 
